@@ -33,7 +33,8 @@ THEOREMS = ['C13_dedup_merges_equal', 'C13_dedup_merges_tested',
             'C13_desc_eqb_sound', 'C13_dedup_survivor_smallest',
             'C13_dedup_survivor_minimal', 'C13_dedup_covers',
             'C13_dedup_idempotent', 'C13_renumber_den', 'C13_dedup_den',
-            'C13_dedup_helper_merge_refuted', 'C13_inline_den',
+            'C13_dedup_helper_merge_refuted', 'C13_dedup_all_empty_refuted',
+            'C13_inline_den', 'C13_inline_complete',
             'C13_inline_model', 'C13_inline_total',
             'C13_acyclic_unique_model', 'C13_fill_geometry_den',
             'C13_options_same_geometry']
@@ -77,6 +78,20 @@ m1 1001 1.0
 
 # ---------------------------------------------------------------------------
 
+WITNESS_EMPTY = '''whole geometry empty after de-duplication
+1 1 -1.0 -1 2 imp:n=1
+2 0 1:-2 imp:n=0
+
+1 px 2
+2 px 2
+
+m1 1001 1.0
+'''
+# the tables of C13_dedup_all_empty_refuted (empty_surfs / empty_volus)
+WITNESS_EMPTY_SURFS = [(1, ('PLANEX', (2.0,))), (2, ('PLANEX', (2.0,))),
+                       (4, ('PLANEX', (1.0,))), (5, ('PLANEX', (-1.0,)))]
+WITNESS_EMPTY_VOLS = [(4, ([2], [1], None, True)), (1, ([2], [1], None, False))]
+
 # the tables of C13_dedup_helper_merge_refuted (coq/C13/ProofsDedup.v
 # helper_surfs / helper_volus), as construct_volume_t4 returns them
 WITNESS_SURFS = [(1, ('PLANEX', (1.0,))), (2, ('PLANEY', (0.0,))),
@@ -87,9 +102,10 @@ WITNESS_VOLS = [(4, ([2], [3], None, True)), (6, ([], [1], None, True)),
                 (1, ([2], [3], ('UNION', (6,)), False))]
 
 
-def witness_tables():
+def witness_tables(deck_text=None):
     '''What construct_volume_t4 hands to the de-duplication step for the
     witness deck.'''
+    deck_text = deck_text or WITNESS_HELPER
     from t4_geom_convert.Kernel.FileHandlers.Writer import WriteT4Geometry as W
     real = W.construct_volume_t4
     cap = {}
@@ -105,7 +121,7 @@ def witness_tables():
         return out
     W.construct_volume_t4 = spy
     try:
-        impl.convert(WITNESS_HELPER, ['--skip-deduplication'])
+        impl.convert(deck_text, ['--skip-deduplication'])
     finally:
         W.construct_volume_t4 = real
     return cap
@@ -140,6 +156,49 @@ def run_witnesses(res):
                           'witness deck', {'observed': cap,
                                            'theorem_or_correspondence':
                                            'tie:witness'}, found_input=False)
+
+
+def patently_empty_everywhere(t4):
+    '''Every non-FICTIVE volume of the file has a PLUS and a MINUS surface with
+    the same descriptor (so no point is in any volume).'''
+    desc = {sid: sweep.descriptor(t4, sid) for sid in t4.surfaces}
+    live = [v for v in t4.volumes.values() if not v['fictive']]
+    return bool(live) and all(
+        {desc.get(s) for s in v['plus']} & {desc.get(s) for s in v['minus']}
+        for v in live)
+
+
+def run_witness_empty(res):
+    '''Known finding all_volumes_empty_after_dedup.'''
+    cap = witness_tables(WITNESS_EMPTY)
+    same = (cap.get('surfs') == WITNESS_EMPTY_SURFS
+            and cap.get('vols') == WITNESS_EMPTY_VOLS
+            and cap.get('union_ids') == (4, 5))
+    bad = impl.convert(WITNESS_EMPTY, [])
+    good = impl.convert(WITNESS_EMPTY, ['--skip-deduplication'])
+    res.seen(('witness', 'empty'), nontrivial=True)
+    if good.ok and not bad.ok and bad.exc == 'ValueError' and \
+            'max()' in bad.msg and \
+            patently_empty_everywhere(impl.T4File(good.text)):
+        res.violation(
+            'impl-violation',
+            'every volume is patently empty after de-duplication: '
+            f'ValueError ({bad.msg}) with default options, success with '
+            '--skip-deduplication',
+            {'input': {'deck': WITNESS_EMPTY,
+                       'vectors': [[], ['--skip-deduplication']]},
+             'observed': [repr(bad), repr(good)]},
+            cls='all_volumes_empty_after_dedup', found_input=True)
+        res.obligation('tie:witness-empty (the tables of C13_dedup_all_empty_'
+                       'refuted are the ones the implementation builds for '
+                       'the witness deck)', same, f'captured {cap}')
+        if not same:
+            res.violation('correspondence',
+                          'the tables in C13_dedup_all_empty_refuted are not '
+                          'what construct_volume_t4 returns for the witness '
+                          'deck', {'observed': cap,
+                                   'theorem_or_correspondence':
+                                   'tie:witness-empty'}, found_input=False)
 
 
 def tie_eq(res, rng, n):
@@ -496,13 +555,20 @@ def classify_failures(text, lat, status):
         vec = failing[0][0]
         if sweep.helper_merge_diagnosis(text, list(vec) + list(lat)):
             return 'helper_plane_dedup_merge'
+    if all(s.startswith('exc:ValueError:max()') for _, s in failing) and \
+            all('--skip-deduplication' not in v for v, _ in failing) and \
+            all(s == 'ok' for v, s in status if '--skip-deduplication' in v):
+        good = [v for v, s in status if s == 'ok'][0]
+        conv = impl.convert(text, list(good) + list(lat), keep_stdout=False)
+        if conv.ok and patently_empty_everywhere(impl.T4File(conv.text)):
+            return 'all_volumes_empty_after_dedup'
     return None
 
 
 def run_sweep(res, tier, rng):
-    n_decks = 90 if tier == 'quick' else 700
-    n_points = 120 if tier == 'quick' else 300
-    n_sigma = 100 if tier == 'quick' else 300
+    n_decks = 90 if tier == 'quick' else 400
+    n_points = 120 if tier == 'quick' else 200
+    n_sigma = 100 if tier == 'quick' else 200
     jobs, metas = [], []
     for _ in range(n_decks):
         dck, info = sweep.gen_deck(rng)
@@ -583,12 +649,13 @@ def run(res, tier, seed, proofs_ok):
                 'the option vectors. non-trivial = duplicates present / '
                 'non-empty to_inline / nested or duplicated deck')
     run_witnesses(res)
-    tie_eq(res, rng, 600 if quick else 6000)
-    tie_dedup(res, rng, 300 if quick else 3000)
-    tie_renumber(res, rng, 200 if quick else 2000)
-    tie_finish(res, rng, 300 if quick else 3000)
-    tie_inlining(res, rng, 300 if quick else 3000)
-    tie_fill(res, rng, 200 if quick else 2000)
+    run_witness_empty(res)
+    tie_eq(res, rng, 600 if quick else 4000)
+    tie_dedup(res, rng, 300 if quick else 2000)
+    tie_renumber(res, rng, 200 if quick else 1500)
+    tie_finish(res, rng, 300 if quick else 2000)
+    tie_inlining(res, rng, 300 if quick else 2000)
+    tie_fill(res, rng, 200 if quick else 1500)
     run_sweep(res, tier, rng)
 
 
